@@ -361,6 +361,16 @@ def run(repo: Repo, chk: Check, thorough: bool = False) -> None:
             chk.ob('R12.3', f'{c.qn}.isVisible :: override', False, 'isVisible overridden in a subclass: inheritance of hiding not checked', c.loc)
     chk.require('R12.3', 1)
 
+    # ... a property's setter and deleter are documented as siblings named `<property>.setter` / `<property>.deleter` (astbuilder renames them so that they
+    # do not replace the property): they are parts of the attribute the user hides, a pattern for `pkg.C.token` does not match them and `*` does not
+    # span the dot - privacyClass has to make them at most as visible as the property
+    pc_ = repo.func('pydoctor.model.System.privacyClass')
+    acc = any(isinstance(x, ast.Constant) and x.value in ('setter', 'deleter') for x in pc_.walk()) and \
+        any(call_name(c) == 'privacyClass' for c in calls_in(pc_))
+    chk.ob('R12.3', 'pydoctor.model.System.privacyClass :: the accessors of a property are never more visible than the property', acc,
+           'the privacy of `<x>.setter` / `<x>.deleter` is capped by the privacy of `<x>`' if acc else
+           '`--privacy=HIDDEN:pkg.mod.C.token` removes the getter only: the page keeps anchors, table rows, detail blocks and sidebar items for `token.setter` and '
+           '`token.deleter`; nameIndex, search indexes and objects.inv list them; with PRIVATE: they carry no marker', pc_.loc)
     # ------------------------------------------------------------------ R12.4 private marker
     for q, want in MARKER_SITES.items():
         f = repo.func(q)
